@@ -58,7 +58,7 @@ func TestVerifReplay(t *testing.T) {
 	req := vLoad()
 	defer vFlush()
 	r := &vRng{s: uint64(req.Seed)*31337 + 7}
-	pool := []string{"polish", "Polish", "apple", "bear", "cider", "dove", "4", "正確", "école", "École", "e-mail", "E-Mail", "a", "zebra", "yak"}
+	pool := []string{"polish", "Polish", "apple", "bear", "cider", "dove", "4", "正確", "école", "École", "e-mail", "E-Mail", "a", "zebra", "yak", "ßeta", "ĸra", "ﬁsh", "7-up", "Ice-cream", "ice-Cream", "ǆungla"}
 	schemes := []CapScheme{CSNone, CSFirst, CSAll, CSRandom, CSOne, "bogus"}
 	rounds := 1500
 	if req.Tier == "thorough" {
